@@ -223,6 +223,12 @@ class EigenWalk:
                     if isinstance(v, Vecs):
                         events.append(("store", v, st, dict(env)))
                     continue
+            if isinstance(st, ast.Expr) and isinstance(st.value, ast.Call) and isinstance(st.value.func, ast.Attribute) \
+                    and st.value.func.attr == "append" and st.value.args:
+                v = self.ev(st.value.args[0], env)
+                if isinstance(v, Vecs):
+                    events.append(("store", v, st, dict(env)))
+                continue
             if isinstance(st, ast.AugAssign):
                 # v[:, i] *= -1 keeps the typestate; rebinding a whole name by other ops forgets it
                 if isinstance(st.target, ast.Name):
